@@ -7,7 +7,7 @@ ASSUMPTIONS = ['sequential client; background logger/installer/shrinker run free
 
 def run(ctx, ps, gen_bad):
     if ctx.quick:
-        wl = [('crashmix', 22, 3000, True, 260), ('crashmix', 22, 3000, False, 160), ('crashmix', 14, 9000, True, 160)]
+        wl = [('crashmix', 22, 3000, True, 240), ('crashmix', 22, 3000, False, 140), ('crashmix', 14, 9000, True, 140), ('unstablemix', 24, 3000, True, 160)]
     else:
         wl = [('crashmix', 60, 3000, True, 4000), ('crashmix', 60, 3000, False, 2500), ('crashmix', 40, 9000, True, 3000),
               ('reclaim', 50, 4000, True, 2500), ('generic', 60, 3000, True, 2500)] * 2
